@@ -97,8 +97,7 @@ Qed.
 Lemma with_exit_typed l r l' nx u :
   with_exit l r = (l', nx) -> implb u (noref r) = true -> next_typed u nx = true.
 Proof.
-  unfold with_exit. intros H Hu. destr_in H; injection H as <- <-; cbn; try exact Hu.
-  destruct u; cbn in *; [rewrite Hu|]; reflexivity.
+  unfold with_exit. intros H Hu. destr_in H; injection H as <- <-; cbn; exact Hu.
 Qed.
 
 Lemma fallback_entry_typed cf l c l' nx : fallback_entry cf l c = (l', nx) -> next_typed false nx = true.
@@ -136,3 +135,136 @@ Lemma after_slot_typed c old w j u : next_typed u (after_slot c old w j) = true.
 Proof. unfold after_slot. destruct (j =? HSLOT); cbn; rewrite ?Bool.implb_true_r; reflexivity. Qed.
 Lemma dec_then_typed a r u : implb u (noref r) = true -> next_typed u (dec_then a r) = true.
 Proof. unfold dec_then. intros H. destruct (a =? 0); cbn; exact H. Qed.
+
+(** ** The frame step *)
+Ltac typed_push :=
+  cbn [next_typed];
+  repeat match goal with
+  | H : enter_load _ _ _ = inl (_, ?fs) |- context [segok (?fs ++ ?gs) ?w] =>
+      rewrite (segok_app fs gs w) by (first [apply (enter_load_typed _ _ _ _ _ _ H); reflexivity | reflexivity])
+  | H : enter_load _ _ _ = inl (_, ?fs) |- context [segok ?fs ?w] =>
+      rewrite (enter_load_typed _ _ _ _ _ w H) by reflexivity
+  | H : enter_pay _ _ _ = (_, ?fs) |- context [segok (?fs ++ ?gs) ?w] =>
+      rewrite (segok_app fs gs w) by (first [apply (enter_pay_typed _ _ _ _ _ _ H) | reflexivity])
+  | H : enter_pay _ _ _ = (_, ?fs) |- context [segok ?fs ?w] =>
+      rewrite (enter_pay_typed _ _ _ _ _ w H)
+  | H : guard_drop_frames ?p ?d = ?fs |- context [segok ?fs ?w] =>
+      rewrite <- H; rewrite (guard_drop_typed p d w)
+  | H : guard_into_frames ?p ?d = ?fs |- context [segok ?fs ?w] =>
+      rewrite <- H; rewrite (guard_into_typed p d w) by reflexivity
+  end;
+  cbn; rewrite ?Bool.implb_true_r; try reflexivity.
+
+Ltac typed_fin :=
+  first
+    [ reflexivity
+    | match goal with
+      | H : with_exit _ _ = (_, ?nx) |- next_typed _ ?nx = true => apply (with_exit_typed _ _ _ _ _ H); reflexivity
+      | H : fallback_entry _ _ _ = (_, ?nx) |- next_typed _ ?nx = true => exact (fallback_entry_typed _ _ _ _ _ H)
+      | H : gen_step _ _ _ = (_, ?nx) |- next_typed _ ?nx = true => exact (gen_step_typed _ _ _ _ _ H)
+      | H : load_body _ _ _ = (_, ?nx) |- next_typed _ ?nx = true => exact (load_body_typed _ _ _ _ _ H)
+      | |- next_typed _ (help_dispatch _ _ _ _ _ _) = true => apply help_dispatch_typed
+      | |- next_typed _ (after_slot _ _ _ _) = true => apply after_slot_typed
+      | |- next_typed _ (dec_then _ _) = true => apply dec_then_typed; reflexivity
+      end
+    | typed_push ].
+
+Lemma exec_typed cf s l p x s' l' evs nx :
+  exec cf s l p x = (s', l', evs, nx) -> fokb p = true -> next_typed (runit p) nx = true.
+Proof.
+  intros He Hf. destruct p; try discriminate Hf; exec_norm He; cbn [runit]; try typed_fin.
+  all: destruct r; cbn; reflexivity.
+Qed.
+
+(** ** Resuming a waiting frame *)
+Lemma rcu_attempt_typed cf l c m p d l' nx : rcu_attempt cf l c m p d = (l', nx) -> next_typed false nx = true.
+Proof.
+  intros He. unfold rcu_attempt in He. destr_in He; try discriminate; injection He as <- <-; try typed_fin.
+Qed.
+
+Lemma resume_typed cf l w v l' nx :
+  resume cf l w v = (l', nx) -> fokb w = true -> next_typed (runit w) nx = true.
+Proof.
+  intros He Hf. destruct w; try discriminate Hf; unfold resume in He; destr_in He; try discriminate.
+  all: try (match type of He with rcu_attempt _ _ _ _ _ _ = _ => exact (rcu_attempt_typed _ _ _ _ _ _ _ _ He) end).
+  all: try (injection He as <- <-); cbn [runit]; try typed_fin.
+  - unfold pay_body. destruct (old =? 0); reflexivity.
+  - destruct r; reflexivity.
+  - pose proof (guard_into_typed p d WLoadFull eq_refl) as HG.
+    match goal with H : guard_into_frames p d = _ |- _ => rewrite H in HG end.
+    cbn [segok] in HG. apply andb_prop in HG as [HG _]. apply andb_prop in HG as [HG _].
+    rewrite HG. reflexivity.
+  - match goal with H : (_ =? _) = true |- _ => rewrite H end. reflexivity.
+Qed.
+
+(** ** Replacing the top frame; unwinding *)
+Definition vok (v : retval) (rest : list pc) : Prop :=
+  match rest with w :: _ => ign w = true -> noref v = true | [] => True end.
+
+Lemma typed_next w rest nx :
+  typed (w :: rest) -> is_bottom_frame w = false -> next_typed (runit w) nx = true ->
+  match nx with
+  | NGoto p' => typed (p' :: rest)
+  | NPush fs w0 => typed (fs ++ w0 :: rest)
+  | NRet v => typed rest /\ vok v rest
+  | _ => True
+  end.
+Proof.
+  intros (Hf & Hl & Ht) Hb Hn.
+  assert (Hlink : forall q, is_bottom_frame q = false -> implb (runit w) (runit q) = true -> link q rest).
+  { intros q Hq Hi. destruct rest as [|w' rest']; cbn in *; [congruence|].
+    split; [exact Hq|]. intros Hw. destruct Hl as [_ Hl]. rewrite (Hl Hw) in Hi. exact Hi. }
+  destruct nx as [p'|fs w0|v|?|?]; cbn in Hn; try exact I.
+  - apply andb_prop in Hn as [Hn H3]. apply andb_prop in Hn as [H1 H2]. apply Bool.negb_true_iff in H2.
+    cbn. auto.
+  - apply andb_prop in Hn as [Hn H4]. apply andb_prop in Hn as [Hn H3]. apply andb_prop in Hn as [H1 H2].
+    apply Bool.negb_true_iff in H3. apply typed_push; [exact H1|]. cbn. auto.
+  - split; [exact Ht|]. destruct rest as [|w' rest']; cbn in *; [exact I|].
+    intros Hw. destruct Hl as [_ Hl]. rewrite (Hl Hw) in Hn. exact Hn.
+Qed.
+
+Lemma unwind_typed cf : forall rest l v,
+  typed rest -> match unwind cf l rest v with UStack _ stk => typed stk | _ => True end.
+Proof.
+  induction rest as [|w rest IH]; intros l v Ht; [exact I|].
+  destruct w; cbn [unwind]; try exact I.
+  all: match goal with |- context [resume ?cf0 ?l0 ?w0 ?v0] =>
+         destruct (resume cf0 l0 w0 v0) as [l' nx] eqn:Hr end.
+  all: pose proof (typed_next _ _ _ Ht eq_refl (resume_typed _ _ _ _ _ _ Hr (proj1 Ht))) as Hn.
+  all: destruct nx as [p'|fs w'|v'|ps|f]; try exact I; try exact Hn.
+  all: apply IH; exact (proj1 Hn).
+Qed.
+
+Lemma exec_thread_typed cf s l p x s' l' evs nx th rest :
+  exec cf s l p x = (s', l', evs, nx) -> typed (p :: rest) ->
+  typed (t_stack (thread_after cf th l' rest nx)).
+Proof.
+  intros He Ht. destruct (is_bottom_frame p) eqn:Hb.
+  - destruct p; try discriminate Hb; cbn in He; injection He as <- <- <- <-; cbn; exact (proj2 (proj2 Ht)).
+  - pose proof (typed_next _ _ _ Ht Hb (exec_typed _ _ _ _ _ _ _ _ _ He (proj1 Ht))) as Hn.
+    destruct nx as [p'|fs w'|v'|ps|f]; cbn; try exact Hn; try exact (proj2 (proj2 Ht)).
+    pose proof (unwind_typed cf rest l' v' (proj1 Hn)) as Hu.
+    destruct (unwind cf l' rest v'); cbn; exact Hu || exact I.
+Qed.
+
+(** ** Starting a command *)
+Definition cmd_nocache (c : cmd) : Prop :=
+  match c with CCacheNew _ _ | CCacheLoad _ => False | _ => True end.
+
+Ltac typed_seg :=
+  repeat match goal with
+  | H : enter_load _ _ _ = inl (_, ?fs) |- segok ?fs ?w = true => apply (enter_load_typed _ _ _ _ _ _ H); reflexivity
+  | H : enter_pay _ _ _ = (_, ?fs) |- segok ?fs ?w = true => apply (enter_pay_typed _ _ _ _ _ _ H)
+  | H : guard_drop_frames ?p ?d = ?fs |- segok ?fs ?w = true => rewrite <- H; apply guard_drop_typed
+  | H : guard_into_frames ?p ?d = ?fs |- segok ?fs ?w = true => rewrite <- H; apply guard_into_typed; reflexivity
+  end.
+
+Lemma cmd_start_typed cf s l c s' l' stk r :
+  cmd_start cf s l c = inl (s', l', stk, r) -> cmd_nocache c -> typed stk.
+Proof.
+  intros Hc Hn. destruct c; try contradiction; cbn in Hc; destr_in Hc; try discriminate; injection Hc as <- <- <- <-.
+  all: try (cbn; intuition (reflexivity || discriminate); fail).
+  all: try (apply typed_push; [typed_seg|cbn; intuition (reflexivity || discriminate)]; fail).
+  all: match goal with |- typed (?p :: ?l0 ++ ?bs) => change (typed ((p :: l0) ++ bs)) end.
+  all: apply typed_push; [typed_seg|cbn; intuition (reflexivity || discriminate)].
+Qed.
